@@ -129,4 +129,18 @@ impl<K: ExpiredKey<E>, E: Expiration, V: Copy> KeyExpList<K, E, V> {
     pub fn verif_snapshot(&self) -> (Vec<(K, V)>, E) {
         (self.buffer.iter().map(|e| (e.key, e.val)).collect(), self.min_exp)
     }
+
+    /// Verification hooks (read-only, non-allocating): number of stored entries, one entry, cached earliest expiration.
+    pub fn verif_len(&self) -> usize {
+        self.buffer.len()
+    }
+
+    pub fn verif_entry(&self, index: usize) -> (K, V) {
+        let e = &self.buffer[index];
+        (e.key, e.val)
+    }
+
+    pub fn verif_min_exp(&self) -> E {
+        self.min_exp
+    }
 }
